@@ -1,6 +1,7 @@
 """C15 jobs: packed source position (proof, loop-free, full 64-bit domain) and the global line table."""
 
 ASSUMPTIONS = [
+    "global line table jobs are BOUNDED (<= 6 segments) and assume the table sorted by strictly increasing global line number, as include.c builds it; include.c's #line / #include state machine itself is not under contract",
     "the abstract field layout (mac:1, cno:14, lno:48, one free top bit) is taken from srcpos.c's header comment",
     "positions handed to the order functions have the top (spstack) bit clear (SP_WF), as every constructor ensures",
 ]
@@ -50,4 +51,17 @@ def jobs(tier):
         js.append({"name": "canary.srcpos." + fn, "kind": "canary", "src": "srcpos_h.c", "entry": "h_" + fn,
                    "defs": ["-DCANARY_" + fn], "enforce": ["%s/c_%s" % (fn, fn)], "functions": [fn],
                    "cls": "P", "timeout": 120})
+    # ---- global line table (class B: at most 6 segments; loops over the table unwound) ----
+    TB = ["--unwind", "8", "--unwinding-assertions"]
+    bound = "global line table of <= 6 segments with strictly increasing global line numbers"
+    for nm, entry, fns, defs, kind in (
+            ("srcpos.table.sposLine_sposFile", "h_sposLine_File", ["sposLine", "sposFile", "sposIsSpecial", "sposGlobalLine"], [], "obligation"),
+            ("srcpos.table.k_line_shift", "h_k_shift_table", ["sposLine", "sposFile", "sposGet", "sposOffset", "sposChar"], [], "obligation"),
+            ("srcpos.table.sposNew_segments", "h_sposNew_table", ["sposNew", "sposGrowGloLineTbl", "sposLine", "sposFile"], [], "obligation"),
+            ("canary.srcpos.table.sposLine", "h_sposLine_File", ["sposLine"], ["-DCANARY_sposLine"], "canary")):
+        js.append({"name": nm, "src": "srcpos_tbl_h.c", "entry": entry, "functions": fns, "defs": defs, "kind": kind,
+                   "inputs": ["n", "p", "j", "k", "name", "flno", "glno", "cno", "gi"], "native": False,
+                   "cls": "B", "bound": bound, "cbmc": TB, "timeout": 600,
+                   "assumed": ["file names modelled as opaque handles: fnameEqual == handle equality, fnameCopy == identity",
+                               "allocator stub (stoResize == realloc)"]})
     return js
